@@ -296,6 +296,7 @@ theorem mul_NZ {p q : LP R} (hp : p.NZ) (hq : q.NZ) :
 
 theorem inv_NZ {p : LP R} (hp : p.NZ) : p.inv.NZ ∧ p.inv.parity = p.parity := by
   unfold LP.inv
+  simp only [hp.2, Bool.false_eq_true, if_false]
   refine ⟨NZ_mk' (by simpa using hp.1.1) _, ?_⟩
   unfold LP.parity LP.dmax
   rw [dmin_mk']
